@@ -21,7 +21,8 @@ void _ZdlPv(u8* p) { VP_ASSERT(0, "operator delete"); }
  * notify_by_address_*: idealised: the waiter is parked until its wake-up condition (the real delegate) holds; the real implementation is
  * checked by the addr_* harnesses. */
 struct vp_df { void* vptr; void* closure; };
-u8 _ZN3tbb6detail2d021timed_spin_wait_untilIZNS0_2d115waitable_atomicIbE4waitEbmSt12memory_orderEUlvE_EEbT_(struct SER_WAIT_CLOSURE* closure) {
+#include "closure_stub.h"
+VP_CLOSURE_STUB(_ZN3tbb6detail2d021timed_spin_wait_untilIZNS0_2d115waitable_atomicIbE4waitEbmSt12memory_orderEUlvE_EEbT_) {
   struct vp_df df; df.vptr = 0; df.closure = closure;
   return _ZNK3tbb6detail2d118delegated_functionIZNS1_15waitable_atomicIbE4waitEbmSt12memory_orderEUlvE_EclEv((void*)&df);
 }
